@@ -98,14 +98,33 @@ def scenarios():
                   "argv": ["-i"] + names})
         S.append({"name": f"multi-formatter-raises-at-{pos}", "files": names, "raise_on": bad, "argv": ["-i", "--nobackup"] + names})
     S.append({"name": "inplace-semantic-opts", "files": ["a.md", "d.md"], "argv": ["-i", "--nobackup", "-s", "-w", "40", "a.md", "d.md"]})
+    # the documents on ANOTHER file system than the temporary directory of the process (a rename across file systems is
+    # impossible: code that prepares its output under $TMPDIR falls back to copying over the target)
+    for name in ("inplace", "inplace-nobackup", "stdin-to-existing-output", "file-to-new-output"):
+        S.append(dict(next(x for x in S if x["name"] == name), name=name + "-other-filesystem", xdev=True))
+    # the same file reached directly and through a symlinked DIRECTORY: still one file, one backup of the original
+    S.append({"name": "inplace-same-file-through-symlinked-dir", "files": ["docs/guide.md", "b.md"], "mkdirs": ["docs"], "dirlink": ("current", "docs"),
+              "argv": ["-i", "docs/guide.md", "b.md", "current/guide.md"], "content": {"docs/guide.md": OLD["a.md"]}})
     return S
+
+
+def other_filesystem_dir() -> str | None:
+    """A writable directory on a different file system than tempfile.gettempdir(), or None."""
+    try:
+        here = os.stat(tempfile.gettempdir()).st_dev
+        for cand in ("/dev/shm", "/run/shm", os.path.expanduser("~"), "/var/tmp"):
+            if os.path.isdir(cand) and os.access(cand, os.W_OK) and os.stat(cand).st_dev != here:
+                return cand
+    except OSError:
+        pass
+    return None
 
 
 class C14(Prop):
     id = "C14"
     once_kinds = ("enumerate", "strace")
     level = "fault_enumeration"
-    rule = ("cases: 26 scenarios x {fault at every file-system audit event, crash (fork + _exit) at every file-system audit event, "
+    rule = ("cases: 31 scenarios (four of them with the documents on another file system than the temporary directory) x {fault at every file-system audit event, crash (fork + _exit) at every file-system audit event, "
             "crash at every executed line inside flowmark/reformat_api.py + strif + pathlib during the run}; each injection "
             "point is one evaluation and is followed by an end-state check of the whole scratch directory. Non-trivial: the "
             "injection point was reached (the run really died / failed there); distinct by (scenario, kind, k). The point "
@@ -141,6 +160,8 @@ class C14(Prop):
     def setup_dir(self, sc, root):
         shutil.rmtree(root, ignore_errors=True)
         os.makedirs(root)
+        for d in sc.get("mkdirs", []):
+            os.makedirs(os.path.join(root, d))
         content = dict(OLD)
         content.update(sc.get("content", {}))
         for f in sc["files"]:
@@ -155,6 +176,8 @@ class C14(Prop):
                 fh.write("STALE BACKUP of " + f + " from an earlier run\n")
         if "symlink" in sc:
             os.symlink(sc["symlink"][1], os.path.join(root, sc["symlink"][0]))
+        if "dirlink" in sc:
+            os.symlink(sc["dirlink"][1], os.path.join(root, sc["dirlink"][0]))
 
     def snapshot(self, root):
         snap = {}
@@ -220,6 +243,10 @@ class C14(Prop):
                     viol("failed-or-unrequested-file-modified", {"file": f, "got": (cur or "<absent>")[:80]})
                 continue
             if cur == old or cur == new:
+                if backup and cur != old and snap.get(f + ".orig") != old:
+                    # "with backups on, the old content is at least recoverable from the .orig file": whenever the target no
+                    # longer holds it
+                    viol("backup-does-not-hold-the-old-content", {"file": f, "orig": (snap.get(f + ".orig") or "<none>")[:60], "old_head": (old or "")[:40]})
                 continue
             if cur is None and backup and snap.get(f + ".orig") == old:
                 continue
@@ -272,7 +299,12 @@ class C14(Prop):
         if case["kind"] == "strace":
             return self._check_strace(case, col)
         sc = self.by_name[case["scenario"]]
-        base = tempfile.mkdtemp(prefix="vf-c14-")
+        xdir = other_filesystem_dir() if sc.get("xdev") else None
+        if sc.get("xdev") and xdir is None:
+            col.count("other_filesystem_unavailable_scenarios_skipped")
+            col.note("no second writable file system: the other-filesystem scenarios were skipped")
+            return
+        base = tempfile.mkdtemp(prefix="vf-c14-", dir=xdir)
         root = os.path.join(base, "work")
         try:
             self.setup_dir(sc, root)
@@ -350,7 +382,7 @@ class C14(Prop):
         import pathlib
 
         import strif.strif as strif_mod
-        files = tuple(m.__file__ for m in (self.api, strif_mod, pathlib))
+        files = tuple(m.__file__ for m in (self.api, strif_mod, pathlib, shutil, tempfile))
         st = {"on": False, "k": None, "n": 0}
         tool = mon.OPTIMIZER_ID
 
